@@ -69,6 +69,8 @@ InvalidDocs ==
   \* allprop together with prop in address-data; invalid limits
   \cup K("allprop with prop", {El(CARD, "addressbook-query", << >>, <<El(DAV, "prop", << >>, <<El(CARD, "address-data", << >>, <<El(CARD, "allprop", << >>, << >>), El(CARD, "prop", <<At("name", "n1")>>, << >>)>>)>>),
                                                 El(CARD, "filter", << >>, << >>)>>)})
+  \cup K("multiget allprop with prop", {El(CARD, "addressbook-multiget", << >>, <<El(DAV, "prop", << >>, <<El(CARD, "address-data", << >>, <<El(CARD, "allprop", << >>, << >>), El(CARD, "prop", <<At("name", "n1")>>, << >>)>>)>>),
+                                                El(DAV, "href", << >>, <<Txt("h1")>>)>>)})
   \cup K("nresults not a number", {El(CARD, "addressbook-query", << >>, <<PropDoc(TRUE, << >>), El(CARD, "filter", << >>, << >>),
                                                 El(CARD, "limit", << >>, <<El(CARD, "nresults", << >>, <<Txt(v)>>)>>)>>) : v \in {"-1", "x", "1.5", "+3", "-0", "0x10", "1e2"}})
   \cup K("nresults empty", {El(CARD, "addressbook-query", << >>, <<PropDoc(TRUE, << >>), El(CARD, "filter", << >>, << >>),
